@@ -740,7 +740,59 @@ type Lid = usize;
 
 /// C07: member lists with and without duplicates; every construction is judged by the
 /// duplicate oracle, accepted collections are then locked once
+/// C07 with long lists: 17-48 locks, each checked constructor given a list that is either
+/// duplicate-free or repeats exactly one lock, the two occurrences anywhere in the list
+/// (in particular far apart, and beyond any small-list fast path); one thread locks what was built
+pub fn gen_c07_big(seed: u64) -> Scenario {
+    let mut rng = Rng::new(seed ^ 0xB1607);
+    let n = rng.range(17, 48);
+    let rw = rng.chance(1, 2);
+    let leaves: Vec<LeafKind> = (0..n).map(|_| if rw { LeafKind::R } else { *rng.pick(&[LeafKind::M, LeafKind::R, LeafKind::PM]) }).collect();
+    let mut slots: Vec<Slot> = (0..n).map(Slot::Leaf).collect();
+    rng.shuffle(&mut slots);
+    let mut targets = Vec::new();
+    for _ in 0..rng.range(1, 3) {
+        let mut ms: Vec<usize> = (0..n).collect();
+        rng.shuffle(&mut ms);
+        ms.truncate(rng.range(17, n));
+        if rng.chance(1, 2) {
+            // one repeat: first occurrence anywhere, second anywhere else
+            let src = ms[rng.below(ms.len())];
+            let pos = rng.range(0, ms.len());
+            ms.insert(pos, src);
+        }
+        let kind = *rng.pick(&[CollKind::Boxed, CollKind::Ref, CollKind::Retry, CollKind::Retry]);
+        if rng.chance(1, 3) {
+            let boxed = kind == CollKind::Ref || rng.chance(1, 2);
+            let kind = if kind == CollKind::Ref || boxed { if boxed && kind != CollKind::Ref { CollKind::Boxed } else { kind } } else { kind };
+            let (kind, boxed) = match (kind, boxed) {
+                (CollKind::Ref, _) => (CollKind::Ref, true),
+                (CollKind::Retry, _) => (CollKind::Retry, false),
+                (k, b) => (k, b),
+            };
+            targets.push(TSpec::Slice { kind, boxed, members: ms, poison: false });
+        } else {
+            let cont = *rng.pick(&[ContKind::Vec, ContKind::BoxSlice]);
+            targets.push(TSpec::Coll { kind, cont, members: ms.into_iter().map(TSpec::Leaf).collect(), poison: false });
+        }
+    }
+    let w = WorldSpec { leaves, units: vec![], slots, targets, datas: vec![], gates: 0, tags: 0 };
+    let mut steps = Vec::new();
+    for t in 0..w.targets.len() {
+        let api = if rw && rng.chance(1, 2) { *rng.pick(&[Api::Read, Api::TryRead]) } else { *rng.pick(&[Api::Lock, Api::TryLock, Api::ScopedLock]) };
+        steps.push(Step::Acquire(Acq { target: t, rebuild: rng.chance(1, 3), api, lent_key: false, body: vec![], release: Release::Drop, mutate: false }));
+    }
+    let p = Params::base();
+    let mut g = Gen::new(seed, &p);
+    let mut cfg = g.cfg(100);
+    cfg.faults.try_refuse_pct = 0;
+    Scenario { world: w, program: Program { threads: vec![steps] }, cfg, profile: "C07".into() }
+}
+
 pub fn gen_c07(seed: u64) -> Scenario {
+    if Rng::new(seed ^ 0x707).chance(3, 100) {
+        return gen_c07_big(seed);
+    }
     let mut p = Params::base();
     p.leaves = (1, 5);
     p.nest_pct = 30;
